@@ -9,8 +9,13 @@ BENIGN_EXC = ['ValueError', 'TypeError', 'KeyError', 'ZeroDivisionError', 'Runti
               'XL:#N/A', 'XL:#VALUE!', 'SyntaxError']
 
 
+LAZY = [False]     # C01 switches this on for its fault stream (values are then decoded fresh per scenario)
+
+
 def pick_value(rng, hostile):
     r = rng.random()
+    if hostile and LAZY[0] and r < 0.08:
+        return rng.choice(V.POOL_LAZY)
     if hostile and r < 0.25:
         return rng.choice(V.POOL_HOSTILE)
     if r < 0.45:
